@@ -50,7 +50,7 @@ BOUNDS = {
 }
 INVARIANTS = ["MechRefines", "MergeRefines", "MergeSafe", "ByNumSane", "MomentsSane"]
 ACTIONS = ["ChooseData", "ChooseSpec", "ChooseX", "ChooseYW", "HistPass", "NumPass", "NumConvert", "NumMerge", "NumKeep",
-           "CalcStats"]
+           "CalcStats", "Assemble"]
 
 PLAIN = ("mean", "var", "err2", "med")
 WTD = ("mean", "var", "erri", "err2")
@@ -157,7 +157,7 @@ def scales(c, k):
 def project(res, c, k, p):
     """result dictionary -> observation record (floats projected onto lattice rationals)"""
     base = {"hasy": p["hasy"], "hasw": p["hasw"],
-            "wantrev": bool(p["entry"] == "histogram" or p["hasy"] or p["hasw"] or p["rev"] or c["mode"] == "nperbin")}
+            "wantrev": bool(p["entry"] == "histogram" or p["hasy"] or p["hasw"] or p["rev"])}
     o = dict(base, err="none", hist=[], hasrev=False, rev=[], **{f: [] for f in ALLFIELDS})
     if isinstance(res, Exception):
         o["err"] = type(res).__name__
@@ -311,9 +311,17 @@ def seeded_cases(rng, n, maxlen):
 def run(ctx):
     B = BOUNDS[ctx.tier]
     consts = dict(B, Kinds={"bins", "stats"}, FixedWhist=True, MergeVariant="code", DoExport=False, StrictOneMember=False)
-    # 1. design level: the mechanisms refine the property, the definitions are sane, no overflow - the whole space
-    ctx.tlc("BinStatsMC.tla", what="mechanisms refine property + definitions sane (exhaustive)",
-            cfg_text=cfg(constants=consts, invariants=INVARIANTS), workers=16, require=ACTIONS, timeout=3000)
+    # 1. design level: the mechanisms refine the property, the definitions are sane, no overflow - the whole space.
+    #    Per-action coverage (vacuity guard) costs 3x: in the thorough tier it is taken on the quick bounds and the
+    #    large space is explored without it (its state count is checked against the number of cases instead).
+    if ctx.quick:
+        r1 = ctx.tlc("BinStatsMC.tla", what="mechanisms refine property + definitions sane (exhaustive)",
+                     cfg_text=cfg(constants=consts, invariants=INVARIANTS), workers=16, require=ACTIONS, timeout=3000)
+    else:
+        ctx.tlc("BinStatsMC.tla", what="mechanisms refine property (quick bounds, action coverage)",
+                cfg_text=cfg(constants=dict(consts, **BOUNDS["quick"]), invariants=INVARIANTS), workers=16, require=ACTIONS, timeout=3000)
+        r1 = ctx.tlc("BinStatsMC.tla", what="mechanisms refine property + definitions sane (exhaustive)",
+                     cfg_text=cfg(constants=consts, invariants=INVARIANTS), workers=16, coverage=False, timeout=3000)
     # 1b. non-vacuity of MechRefines: deviating mechanisms must violate it
     small = dict(consts, Kinds={"bins"}, MaxLen=3, Vals={1, 2, 3}, BinSizes={2}, NBinSet={2}, NPerSet={2}, MinVals=set(), MaxVals=set())
     for name, dev, inv, nxt in (("pinned one-member whist = datum*weight", {"FixedWhist": False}, "MechRefines", "Next"),
@@ -335,6 +343,8 @@ def run(ctx):
         nmode[cse["mode"]] = nmode.get(cse["mode"], 0) + 1
     if set(nmode) != {"binsize", "nbin", "nperbin"}:
         raise MachineryError("export incomplete: %s" % nmode)
+    if r1.distinct < 3 * len(cases):          # every runnable case adds >= 3 mechanism states
+        raise MachineryError("mechanism run too small: %d states for %d cases" % (r1.distinct, len(cases)))
     # replay + judge in chunks (a record carries every projected statistic of every bin: keep memory bounded)
     census, first = {}, {}
 
